@@ -5,8 +5,24 @@ fn main() {
     let args: Vec<String> = std::env::args().collect();
     match args.get(1).map(|s| s.as_str()) {
         Some("registry") => println!("{}", probe::registry::describe()),
+        Some("negotiate") => {
+            // JSON lines of NegCase on stdin -> JSON lines of NegOut on stdout
+            use std::io::{BufRead, Write};
+            let stdin = std::io::stdin();
+            let stdout = std::io::stdout();
+            let mut out = std::io::BufWriter::new(stdout.lock());
+            for line in stdin.lock().lines() {
+                let line = line.unwrap();
+                if line.trim().is_empty() {
+                    continue;
+                }
+                let case: probe::negotiate::NegCase = serde_json::from_str(&line).expect("NegCase");
+                let r = probe::negotiate::run(&case);
+                writeln!(out, "{}", serde_json::to_string(&r).unwrap()).unwrap();
+            }
+        }
         _ => {
-            eprintln!("usage: regprobe registry");
+            eprintln!("usage: regprobe registry | regprobe negotiate < cases.jsonl");
             std::process::exit(2);
         }
     }
